@@ -489,6 +489,9 @@ func Run(c *common.Ctx) error {
 	if err := recreatedAfterDrop(c, c.Rng.Fork()); err != nil {
 		return err
 	}
+	if err := haltReleaseUnderReader(c, c.Rng.Fork()); err != nil {
+		return err
+	}
 	for _, wal := range []bool{false, true} {
 		if err := forwardedApply(c, c.Rng.Fork(), wal); err != nil {
 			return err
